@@ -878,8 +878,8 @@ class FormSum(BaseForm):
         # warning("Calling repr on form is potentially expensive and
         # should be avoided except during debugging.")
         # Not caching this because it can be huge
-        itgs = ", ".join(f"{w!r}*{c!r}" for c, w in zip(self.components(), self.weights()))
-        r = "FormSum([" + itgs + "])"
+        itgs = ", ".join(f"({c!r}, {w!r})" for c, w in zip(self.components(), self.weights()))
+        r = "FormSum(" + itgs + ")"
         return r
 
 
@@ -966,7 +966,7 @@ class ZeroBaseForm(BaseForm):
 
     def __repr__(self):
         """Representation."""
-        return "ZeroBaseForm({})".format(", ".join(repr(arg) for arg in self._arguments))
+        return "ZeroBaseForm(({}))".format("".join(repr(arg) + ", " for arg in self._arguments))
 
     def __hash__(self):
         """Hash."""
